@@ -36,7 +36,8 @@ LReal ==
                         exports |-> {[alias |-> x.alias, file |-> x.file, name |-> x.name] : x \in SeqToSet(r.exports)},
                         importsFrom |-> {[chunk |-> x.chunk, alias |-> x.alias] : x \in SeqToSet(r.importsFrom)} ]],
     assigns |-> {},
-    uses    |-> {} ]
+    uses    |-> {},
+    eexports |-> {[entry |-> x.entry, file |-> x.file, name |-> x.name] : x \in SeqToSet(Rec.eexports)} ]
 \* the hook reports the number of exported symbols next to the alias map: a collision shows as a smaller map
 AliasesDistinct == \A c \in DOMAIN Rec.chunks : Rec.chunks[c].exportCount = Len(Rec.chunks[c].exports)
 
@@ -52,7 +53,10 @@ LEmitted ==
                         exports |-> {[alias |-> n, file |-> c, name |-> n] : n \in SeqToSet(e.exports)},
                         importsFrom |-> UNION {{[chunk |-> x.to, alias |-> n] : n \in SeqToSet(x.names)} : x \in SeqToSet(e.imports)} ]],
     assigns |-> UNION {{[by |-> c, file |-> a.to, name |-> a.name] : a \in SeqToSet(Rec.emitted[c].assigns)} : c \in DOMAIN Rec.emitted},
-    uses    |-> {} ]
+    uses    |-> {},
+    eexports |-> {} ]
+\* no name is exported twice by an emitted file
+EmittedExportsDistinct == \A c \in DOMAIN Rec.emitted : Cardinality(SeqToSet(Rec.emitted[c].exports)) = Len(Rec.emitted[c].exports)
 EmittedParse == \A c \in DOMAIN Rec.emitted : ~Rec.emitted[c].parseError
 \* an assignment to an imported name is wrong whatever it was imported from
 EmittedNoAssignToImport == \A c \in DOMAIN Rec.emitted : Rec.emitted[c].assigns = <<>>
@@ -62,7 +66,7 @@ FailingRec ==
   (IF AliasesDistinct THEN {} ELSE {"ImportsResolveToExports"}) \cup
   (IF EmittedParse THEN {} ELSE {"EmittedParse"}) \cup
   (IF NoStaticChunkCycle(LEmitted) THEN {} ELSE {"EmittedNoStaticChunkCycle"}) \cup
-  (IF ImportsResolveToExports(LEmitted) THEN {} ELSE {"EmittedImportsResolveToExports"}) \cup
+  (IF ImportsResolveToExports(LEmitted) /\ EmittedExportsDistinct THEN {} ELSE {"EmittedImportsResolveToExports"}) \cup
   (IF NoCrossChunkAssignment(LEmitted) /\ EmittedNoAssignToImport THEN {} ELSE {"EmittedNoCrossChunkAssignment"})
 
 \* one pass: always TRUE as an invariant, prints the verdict of every record
